@@ -116,6 +116,8 @@ def view_cases(tier, seed):
         for ity in ITYPES:
             add("tuple " + ity, A + " " + x)
         add("tuple_range " + r.choice(ITYPES), A + " " + x)
+        add("tuple_nc strided " + r.choice(ITYPES), A + " " + x)
+        add("tuple_nc deque " + r.choice(ITYPES), A + " " + x)
         add("builder", A + " " + x)
         add("zero_copy_direct " + r.choice(ITYPES), A + " " + x)
         m = max(1, n + r.randint(-2, 3))
